@@ -623,7 +623,8 @@ class RemoteStreamFlowPath(
                         status, command, self.location, result
                     )
                 )
-            return result.strip()
+            # Like the local implementation, a path that is not a regular file has no checksum
+            return result.strip() if status == 0 else None
 
     async def chmod(self, mode: int, *, follow_symlinks=True):
         if (inner_path := await self._get_inner_path()) != self:
